@@ -6,6 +6,7 @@ import (
 	"go/token"
 	"go/types"
 	"math/big"
+	"time"
 
 	"golang.org/x/tools/go/ssa"
 
@@ -101,7 +102,7 @@ func (w *World) Call(fn *ssa.Function, args []Value, mem *Memory) *Outcome {
 	if len(fn.Blocks) == 0 {
 		return &Outcome{Und: "function " + load.FuncName(fn) + " has no Go body", UndPos: w.P.Pos(fn.Pos())}
 	}
-	w.steps = 0
+	w.beginRun()
 	return w.guard(fr, mem, func() (Value, *Outcome) { return w.exec(fr, mem, fn.Blocks[0], nil, false) })
 }
 
@@ -243,8 +244,11 @@ func (w *World) exec(fr *frame, mem *Memory, b, pred *ssa.BasicBlock, skipPhis b
 	instrs:
 		for _, instr := range b.Instrs {
 			w.steps++
-			if w.steps > MaxSteps {
-				panic(undecided{instr, fmt.Sprintf("more than %d instructions interpreted (loop without a concrete trip count?)", MaxSteps)})
+			if w.steps > w.maxSteps {
+				panic(undecided{instr, fmt.Sprintf("budget exceeded: more than %d instructions interpreted (loop without a concrete trip count, or non-linear code)", w.maxSteps)})
+			}
+			if w.steps&255 == 0 && time.Now().After(w.deadline) {
+				panic(undecided{instr, fmt.Sprintf("budget exceeded: more than %s of wall-clock time in one run", MaxRunTime)})
 			}
 			switch in := instr.(type) {
 			case *ssa.Phi:
